@@ -87,10 +87,11 @@ type c20Calc struct {
 	at      int
 	eofData bool
 	errData bool
+	errVal  error
 }
 
 func (c c20Calc) String() string {
-	return fmt.Sprintf("{len=%d chunks=%s outcome=%d@%d eofWithData=%v errWithData=%v}", c.length, describeChunks(c.chunks), c.outcome, c.at, c.eofData, c.errData)
+	return fmt.Sprintf("{len=%d chunks=%s outcome=%d@%d(%v) eofWithData=%v errWithData=%v}", c.length, describeChunks(c.chunks), c.outcome, c.at, c.errVal, c.eofData, c.errData)
 }
 
 func runC20(rc *RunCtx) {
@@ -105,7 +106,7 @@ func runC20(rc *RunCtx) {
 		k := ch.Intn("k", l+1)
 		chunks := [][]int{nil, {1}, {3, 0, 5}}[ch.Intn("chunk", 3)]
 		calcs = []c20Calc{
-			{length: l, seed: 11, chunks: chunks, outcome: 1 + fk, at: k},
+			{length: l, seed: 11, chunks: chunks, outcome: 1 + fk, at: k, errVal: scriptedErr(ch, "errkind")},
 			{length: l/2 + 1, seed: 12, chunks: chunks, outcome: 0},
 		}
 	} else {
@@ -118,6 +119,7 @@ func runC20(rc *RunCtx) {
 			switch c.outcome {
 			case 1:
 				c.at = ch.Intn("errat", c.length+1)
+				c.errVal = scriptedErr(ch, "errkind")
 			case 2:
 				c.at = ch.Intn("cancelat", 12)
 			}
@@ -140,7 +142,7 @@ func runC20(rc *RunCtx) {
 		r := &ScriptedReader{Data: content, Chunks: c.chunks, ErrAt: -1, CancelAtRead: -1, Ctx: ctx, Cancel: cancel, EOFWithData: c.eofData, ErrWithData: c.errData}
 		switch c.outcome {
 		case 1:
-			r.ErrAt, r.ErrVal = c.at, errScripted
+			r.ErrAt, r.ErrVal = c.at, c.errVal
 			res.Fault("reader-error")
 		case 2:
 			r.CancelAtRead = c.at
@@ -192,7 +194,8 @@ func runC20(rc *RunCtx) {
 	// file hashing = hashing the bytes, on every backend
 	if lastContent != nil && len(lastContent) > 0 {
 		want := refDigest(algo, lastContent)
-		backends := map[string]afero.Fs{"SimDisk": NewSimDisk().View(1), "MemMapFs": afero.NewMemMapFs()}
+		// the last backend behaves like procfs: regular files whose Stat reports size 0 although they have content
+		backends := map[string]afero.Fs{"SimDisk": NewSimDisk().View(1), "MemMapFs": afero.NewMemMapFs(), "size-0-reporting(procfs-like)": &zeroSizeFs{Fs: afero.NewMemMapFs()}}
 		root := "/data"
 		if scratch := os.Getenv("VERIF_SCRATCH"); scratch != "" {
 			if d, err := os.MkdirTemp(scratch, "c20-"); err == nil {
@@ -221,4 +224,48 @@ func runC20(rc *RunCtx) {
 	if rc.KeepTrace {
 		res.Trace = []string{res.Config}
 	}
+}
+
+// zeroSizeFs reports size 0 for every regular file (as procfs does) while serving its full content.
+type zeroSizeFs struct{ afero.Fs }
+
+type zeroSizeInfo struct{ os.FileInfo }
+
+func (i zeroSizeInfo) Size() int64 {
+	if i.IsDir() {
+		return i.FileInfo.Size()
+	}
+	return 0
+}
+
+type zeroSizeFile struct{ afero.File }
+
+func (f zeroSizeFile) Stat() (os.FileInfo, error) {
+	fi, err := f.File.Stat()
+	if err != nil {
+		return nil, err
+	}
+	return zeroSizeInfo{fi}, nil
+}
+
+func (z *zeroSizeFs) Stat(name string) (os.FileInfo, error) {
+	fi, err := z.Fs.Stat(name)
+	if err != nil {
+		return nil, err
+	}
+	return zeroSizeInfo{fi}, nil
+}
+func (z *zeroSizeFs) Open(name string) (afero.File, error) {
+	f, err := z.Fs.Open(name)
+	if err != nil {
+		return nil, err
+	}
+	return zeroSizeFile{f}, nil
+}
+func (z *zeroSizeFs) OpenFile(name string, flag int, perm os.FileMode) (afero.File, error) {
+	f, err := z.Fs.OpenFile(name, flag, perm)
+	if err != nil {
+		return nil, err
+	}
+	return zeroSizeFile{f}, nil
 }
